@@ -2,7 +2,7 @@
 EXTENDS Exclude, Json, SequencesExt
 CONSTANT OutFile
 Globs == { <<"a">>, <<"b">>, <<"a", "b">>, <<"*">>, <<"a", "*">>, <<"?">>, <<"?", "b">>, <<"[ab]">>, <<"*", "b">> }
-Sels  == { {}, {"table"}, {"column"}, {"index", "fk"}, {"schema"}, {"check"}, {"view"} }
+Sels  == { {}, {"table"}, {"column"}, {"index", "fk"}, {"index"}, {"fk"}, {"schema"}, {"check"}, {"view"} }
 Segs  == { [g |-> g, sel |-> s] : g \in Globs, s \in Sels }
 \* glob reference cross-check against an independent formulation (split point enumeration for a single "*")
 Pats1 == { <<x>> : x \in Segs }
